@@ -1015,6 +1015,11 @@ class _Iter:
         self.items = items
         self.pos = 0
 
+    def __iter__(self):
+        while self.pos < len(self.items):
+            self.pos += 1
+            yield self.items[self.pos - 1]
+
 
 class PropertyDescriptor(Descriptor):
     def __init__(self, fget, fset):
@@ -1105,7 +1110,7 @@ def make_externals(interp):
 
     def it_product(interp, *its, repeat=1):
         pools = [list(interp.iterate(i)) for i in its] * repeat
-        return list(itertools.product(*pools))
+        return _Iter(list(itertools.product(*pools)))      # a consumable iterator, as itertools.product
 
     def it_accumulate(interp, it, func=None, initial=None):
         items = list(interp.iterate(it))
@@ -1283,6 +1288,9 @@ def install_numpy_models(interp):
             if is_sym(shape) or (isinstance(shape, tuple) and any(is_sym(s) for s in shape)):
                 c = concrete_value(shape) if is_sym(shape) else None
                 if c is None:
+                    if is_sym(shape) and fill is not None:
+                        # 1-d array of symbolic length filled with a constant
+                        return SymSeq(z3.K(z3.IntSort(), real_const(float(fill))), shape, "r", 0, "const")
                     raise Unsupported("array of symbolic shape")
                 shape = c
             if isinstance(dtype, Model):
